@@ -330,7 +330,18 @@ GrpcScenarios ==
                     Grpc("hostile", x[1], x[3]),
                     Http("complete", "PATCH", "/promises/@SID@", "{\"state\":\"RESOLVED\"}") >> \o Aftermath(1300)] : x \in cases}
 
-Scenarios == PromiseScenarios \cup CompleteScenarios \cup RegistrationScenarios \cup ScheduleScenarios
+\* --- C07, "a claimed task is not taken away before its lease has run out", for the largest ttl values: the lease end is
+\*     a sum that must not wrap (a lease that ended before it began is swept at once).  Claim or create-with-task, let a few
+\*     sweeps pass, then finish the task with the counter that was granted: it must still be that worker's.
+LeaseScenarios ==
+  {[ep |-> "lease", field |-> how, raw |-> ttl, expect |-> "ok",
+    steps |-> (IF how = "claim"
+               THEN << TaskPromise, Http("hostile", "POST", "/tasks/claim", "{\"id\":\"__invoke:@SID@\",\"counter\":1,\"processId\":\"w\",\"ttl\":" \o ttl \o "}") >>
+               ELSE << Http("hostile", "POST", "/promises/task", "{\"promise\":{\"id\":\"@SID@\",\"timeout\":@NOW+60000@,\"tags\":{\"resonate:invoke\":\"poll://default/@SID@\"}},\"task\":{\"processId\":\"w\",\"ttl\":" \o ttl \o "}}") >>)
+              \o << Sleep(400), Http("finish", "POST", "/tasks/complete", "{\"id\":\"__invoke:@SID@\",\"counter\":1}") >>]
+   : how \in {"claim", "create-with-task"}, ttl \in {"9223372036854775807", "9223372036854775000", "9000000000000000000", "3600000"}}
+
+Scenarios == LeaseScenarios \cup PromiseScenarios \cup CompleteScenarios \cup RegistrationScenarios \cup ScheduleScenarios
              \cup LockTaskScenarios \cup SearchScenarios \cup MalformedScenarios \cup GrpcScenarios
              \cup MoreScenarios \cup HeaderScenarios \cup CursorScenarios
 =============================================================================
